@@ -97,6 +97,24 @@ func mkCustom() map[string]*CustomOp {
 		}
 		return len(s), nil
 	}})
+	// crem: reads the variable named by its argument through the context it is handed, the way an operator that wraps
+	// a remote call does: DNE while the context does not hold the variable, its value afterwards
+	ops = append(ops, &CustomOp{Name: "crem",
+		Fn: func(a []interface{}) (interface{}, error) { return nil, ErrCustom },
+		CtxFn: func(ctx interface{}, a []interface{}) (interface{}, error) {
+			if len(a) != 1 {
+				return nil, ErrCustom
+			}
+			name, ok := a[0].(string)
+			if !ok {
+				return nil, ErrCustom
+			}
+			c := ctx.(*eval.Ctx)
+			if !c.Cached(eval.UndefinedVarKey, name) {
+				return eval.DNE, nil
+			}
+			return c.Get(eval.UndefinedVarKey, name)
+		}})
 	// cnest: x + 3, where the 3 is obtained by evaluating another compiled expression on the SAME context
 	// (a rule that evaluates a sub-rule), through TryEval and through Eval
 	ops = append(ops, &CustomOp{Name: "cnest",
@@ -193,6 +211,9 @@ type G struct {
 	// Foreign: also use clen/slen, operators whose result is a plain Go int (no literal syntax, so Dump cannot print a
 	// folded one faithfully): only for workloads whose oracle does not read programs back from Dump
 	Foreign bool
+	// Remote: also use (crem "name"), an operator that reads a variable through its context (TryEval drivers only: the
+	// reference treats the call as the variable it stands for)
+	Remote bool
 }
 
 func (g *G) p(x float64) bool { return g.R.Float64() < x }
@@ -248,6 +269,9 @@ func (g *G) spend() bool {
 
 func (g *G) boolLeaf() *Node {
 	r := g.R.Intn(10)
+	if g.Remote && g.R.Intn(8) == 0 {
+		return Op("crem", TBool, Lit([]string{"rb0", "rb1"}[g.R.Intn(2)]))
+	}
 	switch {
 	case r < 5 && len(g.BoolVars) > 0:
 		return Var(g.pick(g.BoolVars), TBool)
@@ -266,6 +290,9 @@ func (g *G) boolLeaf() *Node {
 
 func (g *G) intLeaf() *Node {
 	r := g.R.Intn(10)
+	if g.Remote && g.R.Intn(10) == 0 {
+		return Op("crem", TInt, Lit("ri0"))
+	}
 	switch {
 	case r < 4 && len(g.IntVars) > 0:
 		return Var(g.pick(g.IntVars), TInt)
